@@ -6,6 +6,12 @@ Protocol (one observation per line; identical lines go to the Lean driver Operon
        of core/agent.py are kept (wrapped by a recorder) instead of being replaced by stubs)
   run <pid|u<pid>> <zVerdict|exc> <yVerdict|exc>                        -> <result> ; <stats>
   adv <us> | resetcb | clearcache                                       -> - ; <stats>
+  nest <p1> <z1> <y1> <w1> <d1> [<p2> <z2> <y2> <w2> <d2> ...]         -> <result1> | <result2> | ... ; <stats>
+      overlapping requests on the CURRENT loop (up to 4 levels): request i is issued with prompt p_i; while its
+      executor (w_i = e) / assessor (w_i = a) is being consulted - before that agent spends energy and answers
+      z_i / y_i - request i+1 is issued on the same loop (re-entrantly; w_i = E / A: by a second thread while the
+      agent waits for it) and then the clock advances by d_i us (a slow agent).  result_i = `-` when request i was
+      never issued (an outer request was answered by the breaker or the cache, or its hosting agent was not reached).
 result = action success blocked tokenPid|none issuer|- cached        (or raise:<Class>)
 stats  = execCalls assessCalls spent state failures successes lastFailureUs|none lastSuccessUs|none trips
          totalErrors cacheSize
@@ -94,22 +100,31 @@ class Stub:
 
 
 class Recorder:
-    """Sits in front of an agent (stub or the real BioAgent): counts calls, remembers what actually came back."""
+    """Sits in front of an agent (stub or the real BioAgent): counts calls, remembers what actually came back.
+    `hook(role, signal)` (set by Impl during a `nest` line) runs after the call was counted and before the agent
+    itself is asked: that is where an overlapping request is issued."""
 
-    def __init__(self, agent):
+    def __init__(self, agent, role=None):
         self.agent = agent
         self.name = agent.name
+        self.role = role
+        self.hook = None
         self.n = 0
         self.last = None          # None = not consulted on this request
 
     def express(self, signal):
         self.n += 1
+        done = self.hook(self.role, signal) if self.hook is not None else None
         try:
             out = self.agent.express(signal)
         except Exception:
             self.last = "exc"
+            if done is not None:
+                done("exc")
             raise
         self.last = out.action_type
+        if done is not None:
+            done(out.action_type)
         return out
 
 
@@ -124,6 +139,8 @@ class Impl:
         self.L, self.T, self.ATP_Store = L, T, ATP_Store
         self.clock = None
         self.loop = None
+        self.hung = False
+        self.nest_info = None
 
     # -------------------------------------------------------------------------------------------------
     def new_loop(self, gate="and", breaker=True, thr=5, tmo=60_000_000, cache=True, ttl=300_000_000,
@@ -141,16 +158,17 @@ class Impl:
         if loop.recovery_timeout != _dt.timedelta(microseconds=tmo) or loop.cache_ttl != _dt.timedelta(microseconds=ttl):
             raise Infra(f"timedelta rounding: {tmo} {ttl}")
         if real:     # keep the built-in BioAgents (they share self.store), only put the recorder in front
-            self.E = Recorder(loop.executor)
-            self.A = Recorder(loop.assessor)
+            self.E = Recorder(loop.executor, "z")
+            self.A = Recorder(loop.assessor, "y")
         else:
-            self.E = Recorder(Stub(EXEC_NAME, self.store, self.T))
-            self.A = Recorder(Stub(ASSESS_NAME, self.store, self.T))
+            self.E = Recorder(Stub(EXEC_NAME, self.store, self.T), "z")
+            self.A = Recorder(Stub(ASSESS_NAME, self.store, self.T), "y")
         self.real = real
         loop.executor = self.E
         loop.assessor = self.A
         self.loop = loop
         self.sha = {}
+        self.hung = False
 
     def _us(self, t):
         if t is None:
@@ -166,6 +184,76 @@ class Impl:
                          str(cb.failure_count), str(cb.success_count), self._us(cb.last_failure),
                          self._us(cb.last_success), str(cb.trips_count), str(st["total_errors"]), str(st["cache_size"])])
 
+    def show_result(self, r) -> str:
+        tok = r.approval_token
+        if tok is None:
+            tk, iss = "none", "-"
+        else:
+            tk = self.sha.get(tok.request_hash, "?")
+            iss = "assessor" if tok.issuer == self.A.name else ("executor" if tok.issuer == self.E.name else "?")
+        return " ".join([str(r.action), show_bool(r.success is True), show_bool(r.blocked is True), tk, iss,
+                         show_bool(r.cached is True)])
+
+    # --- overlapping requests on the current loop --------------------------------------------------------------------
+    def nest(self, t) -> str:
+        lp = self.loop
+        levels = [t[i:i + 5] for i in range(1, len(t), 5)]
+        k = len(levels)
+        texts = []
+        for (p, _, _, _, _) in levels:
+            text = prompt_text(p)
+            texts.append(text)
+            if not p.startswith("u"):
+                self.sha[hashlib.sha256(text.encode()).hexdigest()[:16]] = p
+        replies = [None] * k          # observation of request i (None = never issued)
+        actual = [[None, None] for _ in range(k)]
+        stack = []                    # the request whose agents are being consulted right now is on top
+
+        def issue(i):
+            stack.append(i)
+            try:
+                replies[i] = self.show_result(lp.run(texts[i]))
+            except Exception as e:  # noqa
+                replies[i] = f"raise:{type(e).__name__}"
+            finally:
+                stack.pop()
+
+        def hook(role, signal):
+            if not stack:
+                return None
+            i = stack[-1]
+            p, z, y, w, d = levels[i]
+            if (w.lower() == "e") == (role == "z"):
+                if i + 1 < k and replies[i + 1] is None:
+                    if w in "EA":        # the overlapping request comes from a second thread; this agent waits for it
+                        th = threading.Thread(target=issue, args=(i + 1,), daemon=True)
+                        th.start()
+                        th.join()
+                    else:
+                        issue(i + 1)
+                self.clock.advance_us(int(d))
+            if not self.real:
+                v = z if role == "z" else y
+                (self.E if role == "z" else self.A).agent.next = EXC if v == "exc" else verdict_text(v)
+
+            def done(verdict, i=i, role=role):
+                actual[i][0 if role == "z" else 1] = verdict
+            return done
+
+        self.E.hook = self.A.hook = hook
+        try:
+            from .util import call_guarded
+            st, _ = call_guarded(lambda: issue(0), timeout=10.0)
+        finally:
+            self.E.hook = self.A.hook = None
+        if st != "ok":
+            self.hung = True          # a request never came back: the loop is not touched again in this case
+            self.nest_info = {"kind": "nest", "levels": [], "hung": True}
+            return "hang"
+        self.nest_info = {"kind": "nest", "levels": [
+            {"p": levels[i][0], "z": actual[i][0], "y": actual[i][1], "reply": replies[i]} for i in range(k)]}
+        return " | ".join("-" if r is None else r for r in replies) + " ; " + self.stats()
+
     def line(self, line: str) -> str:
         t = line.split()
         if not t:
@@ -176,6 +264,8 @@ class Impl:
             return "ok"
         if self.loop is None:
             self.new_loop()
+        if self.hung:
+            return "hang"
         lp = self.loop
         if t[0] == "run" and len(t) == 4:
             text = prompt_text(t[1])
@@ -190,14 +280,9 @@ class Impl:
                     r = lp.run(text)
             except Exception as e:  # noqa
                 return f"raise:{type(e).__name__} ; {self.stats()}"
-            tok = r.approval_token
-            if tok is None:
-                tk, iss = "none", "-"
-            else:
-                tk = self.sha.get(tok.request_hash, "?")
-                iss = "assessor" if tok.issuer == self.A.name else ("executor" if tok.issuer == self.E.name else "?")
-            return " ".join([str(r.action), show_bool(r.success is True), show_bool(r.blocked is True), tk, iss,
-                             show_bool(r.cached is True)]) + " ; " + self.stats()
+            return self.show_result(r) + " ; " + self.stats()
+        if t[0] == "nest" and len(t) >= 6 and (len(t) - 1) % 5 == 0 and len(t) <= 21:
+            return self.nest(t)
         if t[0] == "adv" and len(t) == 2:
             self.clock.advance_us(int(t[1]))
             return "- ; " + self.stats()
@@ -299,7 +384,11 @@ class Impl:
                 obs.append(o)
                 actual.append(info)
                 continue
+            self.nest_info = None
             obs.append(self.line(l))
+            if self.nest_info is not None:
+                actual.append(self.nest_info)
+                continue
             actual.append((self.E.last, self.A.last) if l.startswith("run ") and self.loop is not None else (None, None))
         return obs, actual
 
